@@ -171,6 +171,16 @@ def summary_tables_of(snapshot):
   return out
 
 
+def summary_source_of(snapshot, summary_table_id):
+  t = snapshot.get('_grist_Tables')
+  if not t:
+    return None
+  for r in t['id']:
+    if t['tableId'].get(r) == summary_table_id and t['summarySourceTable'].get(r):
+      return t['tableId'].get(t['summarySourceTable'].get(r))
+  return None
+
+
 def only_summary_renumbering(before, after):
   """True when the two snapshots differ only in that rows of summary tables carry different row ids
   (same multiset of row contents)."""
@@ -283,6 +293,17 @@ def judge_state_diff(ref, obs, full_log, upto):
     e = structural[0]
     what = e[1] if e[1] in ('row ids',) or e[1].startswith('table only') else 'column-set'
     tcat = e[0] if e[0].startswith('_grist_') else ('summarytable' if e[0] in (summary_tables_of(ref) | summary_tables_of(obs)) else 'usertable')
+    if tcat == 'summarytable' and what == 'row ids' and all(x[0] == e[0] for x in structural):
+      # Which summary rows exist follows from the source table's group-by cells. If such a (formula) cell was
+      # already stale in the reference state, the summary rows of the reference state are stale too: C05 matter.
+      src = summary_source_of(ref, e[0])
+      try:
+        stale, _ = stale_cells_of(full_log, upto)
+      except Exception:
+        stale = set()
+      if src and any(t == src for (t, c, r) in stale):
+        labels.append('reference-state-was-stale(summary rows; charged to C05)')
+        return None, labels
     return ('structure:%s:%s' % (tcat, what.replace(' ', '-')), structural[:4]), labels
   real = [x for x in cells if not is_cycle_error_pair(x[3], x[4])]
   if len(real) < len(cells):
@@ -313,13 +334,43 @@ def judge_state_diff(ref, obs, full_log, upto):
   return ('cells:' + loc, [list(x) for x in real[:6]]), labels
 
 
-def undo_raised_sig(doc, uas, error):
+def made_formula_then_removed(uas, cells):
+  """Root cause shared by several undo mismatches: one bundle turns a data column into a formula column
+  (ModifyColumn isFormula=True) and, before any recalculation, removes rows of that table or the column itself.
+  The undo of the removal does not carry the column's values (it is a formula column by then) and the undo of
+  the conversion relies on calculated-value deltas that were never produced, so the stored data comes back as
+  the formula-era value / the type default. True when every differing cell lies in such a column."""
+  conv = {}
+  for i, u in enumerate(uas):
+    if u[0] == 'ModifyColumn' and isinstance(u[3], dict) and u[3].get('isFormula') is True:
+      conv.setdefault((u[1], u[2]), i)
+  hit = set()
+  for (t, c), i in conv.items():
+    for u in uas[i + 1:]:
+      if (u[0] in ('RemoveRecord', 'BulkRemoveRecord', 'ReplaceTableData') and u[1] == t) or \
+         (u[0] == 'RemoveColumn' and u[1] == t and u[2] == c):
+        hit.add((t, c))
+  return bool(cells) and all((x[0], x[1]) in hit for x in cells)
+
+
+def undo_raised_sig(doc, uas, error, undo=None):
   """Root-cause bucket for an undo that raised: one known cause is the undo of a bundle that both edits source
   records and re-shapes a summary table (regroup / detach / create / remove of a summary section): its undo list
-  updates a summary row at a point where that row does not exist."""
+  updates a summary row at a point where that row does not exist (the undo of calculated values is applied
+  last, after the undo of the record additions that created the row). Recognised from the undo list itself:
+  it updates rows of a summary table (`<source>_summary_...`) AND adds or removes rows of that same table."""
   summary_kinds = ('UpdateSummaryViewSection', 'DetachSummaryViewSection', 'CreateViewSection', 'RemoveViewSection',
                    'RemoveView', 'RemoveTable', 'RemoveColumn', 'ModifyColumn')
-  if 'non-existent record' in str(error) and len(uas) >= 2 and any(u[0] in summary_kinds for u in uas) and \
-     (doc.summary_tables() or any(u[0] in ('UpdateSummaryViewSection', 'DetachSummaryViewSection') for u in uas)):
-    return 'summary-row-updated-before-it-exists'
+  if 'non-existent record' in str(error) and len(uas) >= 2 and any(u[0] in summary_kinds for u in uas):
+    if doc.summary_tables() or any(u[0] in ('UpdateSummaryViewSection', 'DetachSummaryViewSection') for u in uas):
+      return 'summary-row-updated-before-it-exists'
+    upd, addrm = set(), set()
+    for a in (undo or []):
+      if isinstance(a, (list, tuple)) and len(a) > 1 and isinstance(a[1], str) and '_summary' in a[1]:
+        if a[0] in ('UpdateRecord', 'BulkUpdateRecord'):
+          upd.add(a[1])
+        elif a[0] in ('AddRecord', 'BulkAddRecord', 'RemoveRecord', 'BulkRemoveRecord'):
+          addrm.add(a[1])
+    if upd & addrm:
+      return 'summary-row-updated-before-it-exists'
   return bundle_sig(uas)
